@@ -170,6 +170,10 @@ def run(ctx, chk):
         chk.cfg = cfg.name
         # items are slices / symbols taken with Index: what they denote is C03's rows
         core.import_rows(chk, cfg, "C03", "props.C03", ("R-index", "S-len", "S-nth", "I-transparent"))
+    import core as _core
+    for cfg in ctx.configs():
+        chk.cfg = cfg.name
+        _core.import_codec_core(chk, cfg)      # the symbols' own tables (C05)
     chk.floor("iterator transition rows", chk.rule_sites.get("G02/guard", 0) + chk.rule_sites.get("G03/guard", 0) + chk.rule_sites.get("G04/guard", 0), 3 * len(chk.configs))
 
 
